@@ -6,11 +6,13 @@ CONSTANTS
   MaxLen = 1
   Salts = {0}
   SetVals = {0}
+  MaxKw = 9
 INVARIANT TypeOK
 INVARIANT HashTableTotal
 INVARIANT BindConflictFree
 INVARIANT SignatureOK
 INVARIANT OrderLaws
 INVARIANT EqHashCoherent
-INVARIANT ImplVsRef
+INVARIANT ImplVsRefCfg
+INVARIANT ImplVsRefStep
 CHECK_DEADLOCK FALSE
